@@ -54,9 +54,16 @@ def run(ctx: Ctx, rep: Report) -> None:
         raise AnalysisError("register_trap_callback: call of transport.listen not found")
     lb = bind_call_args(listen_calls[0], ctx.fn("puresnmp.transport:listen").params, skip_self=False)
     cb = lb.get("callback")
-    if not isinstance(cb, ast.Name) or cb.id not in reg.nested:
+    dec = reg.nested.get(cb.id) if isinstance(cb, ast.Name) else None
+    if dec is None and cb is not None:
+        # a callable object built here (`decode = _TrapDecoder(callback, credentials)`): its __call__ as a closure over
+        # the constructor arguments
+        from .common import bound_method_as_closure
+
+        built = ctx.defs(reg).single(cb.id) if isinstance(cb, ast.Name) else cb
+        dec = bound_method_as_closure(ctx, reg, built) if built is not None else None
+    if dec is None:
         raise AnalysisError("register_trap_callback: the datagram callback given to listen() is not a local closure")
-    dec = reg.nested[cb.id]
     packet = dec.params[0]
     user_cb = reg.params[0]
     creds_param = "credentials" if "credentials" in reg.params else None
